@@ -457,7 +457,7 @@ class Interp:
         return val
 
     def index_value(self, val, iv):
-        if isinstance(val, Agg) and val.kind in ("array", "slice"):
+        if isinstance(val, Agg) and val.kind in ("array", "slice", "vec"):
             if isinstance(iv, int):
                 return val.fields[iv]
             sv = z3.simplify(iv) if z3.is_expr(iv) else iv
@@ -775,6 +775,13 @@ class Interp:
                 if rng and rng[0] == 0:
                     return rng[1] - a
                 raise Unencodable("Not on signed int")
+            if rv[1] == "PtrMetadata":
+                tgt = a
+                while isinstance(tgt, Ref):
+                    tgt = self.load(state, tgt)
+                if isinstance(tgt, Agg) and tgt.kind in ("vec", "slice", "array"):
+                    return z3.IntVal(len(tgt.fields))
+                raise Unencodable("PtrMetadata of %r" % (tgt,))
             if rv[1] == "Neg":
                 if isinstance(a, Opaque):
                     raise Unencodable("Neg on opaque")
